@@ -14,7 +14,10 @@ DIRS = {"ts": ("s", "SCALAR"), "te": ("e", "ENUM"), "tv": ("v", "ENUM_VALUE"), "
 
 
 class DirWorld:
-    def __init__(self, cfg):
+    def __init__(self, cfg, hetero=False):
+        """hetero=True: a directive WITHOUT any hook (@plain, with its own argument values) is declared after every tagging
+        instance and between the query-side ones, and the built-in @include(if: true) follows them: elements carry directives
+        with heterogeneous hook sets; the prediction is unchanged (hook-less directives contribute nothing)"""
         t = base.tartiflette()
         self.sn = unique_schema_name("dir")
         self.cfg = cfg
@@ -60,10 +63,15 @@ class DirWorld:
             def parse_literal(self, ast):
                 return "lit(%s)" % getattr(ast, "value", None)
 
+        @t.Directive("plain", schema_name=self.sn)
+        class Plain:
+            pass
+
         def tags(name, n):
-            return "".join(" @%s(n: %d)" % (name, k) for k in range(1, n + 1))
+            return "".join(" @%s(n: %d)" % (name, k) + (" @plain(n: %d)" % (90 + k) if hetero else "") for k in range(1, n + 1))
         c = cfg
         sdl = "\n".join("directive @%s(n: Int) on %s" % (n, where) for n, (_l, where) in DIRS.items())
+        sdl += "\ndirective @plain(n: Int) on " + " | ".join(sorted({where for _l, where in DIRS.values()}))
         sdl += """
 scalar Sx%s
 enum E%s { X%s  Y }
@@ -107,7 +115,8 @@ type Query {
         async def o(p, a, ctx, i):
             return {"s": "r(v)"}
         self.eng = main_loop().run(t.create_engine(sdl, schema_name=self.sn))
-        q = (" @tq(n: 1)" if c["q"] >= 1 else "") + (" @tr(n: 2)" if c["q"] >= 2 else "")
+        q = (" @tq(n: 1)" if c["q"] >= 1 else "") + (" @plain(n: 97)" if hetero else "") + (" @tr(n: 2)" if c["q"] >= 2 else "") + (" @include(if: true)" if hetero else "")
+        self.hetero = hetero
         self.requests = {
             "lit": ('{ fs(a: "v")%s }' % q, None, "fs"),
             "var": ("query ($x: Sx) { fs(a: $x)%s }" % q, {"x": "v"}, "fs"),
@@ -121,7 +130,8 @@ type Query {
 
     def run_merged(self):
         """items { n @tq ... on IB { n @tr } }: one merged node for the IA item, two for the IB item"""
-        q = "{ items { n%s ... on IB { n%s } } }" % (" @tq(n: 1)" if self.cfg["q"] >= 1 else "", " @tr(n: 2)" if self.cfg["q"] >= 2 else "")
+        extra = " @plain(n: 98) @skip(if: false)" if self.hetero else ""
+        q = "{ items { n%s ... on IB { n%s } } }" % ((" @tq(n: 1)" if self.cfg["q"] >= 1 else "") + extra, (" @tr(n: 2)" if self.cfg["q"] >= 2 else "") + extra)
         self.log = []
         try:
             return main_loop().run(self.eng.execute(q)), q
@@ -144,8 +154,12 @@ def job(j):
     st = {"n": 0, "viol": [], "distinct": set(), "samples": []}
 
     def on_line(rec):
+        for hetero in (False, True):
+            one_world(rec, hetero)
+
+    def one_world(rec, hetero):
         c = rec["cfg"]
-        w = DirWorld(c)
+        w = DirWorld(c, hetero)
         for kind, exp in rec["expect"].items():
             st["n"] += 1
             resp, field = w.run(kind)
@@ -167,9 +181,9 @@ def job(j):
                 if have != want:
                     mm.append("%s: hook calls %r expected exactly once each: %r" % (kind, have, want))
             if sum(c.values()) >= 2:
-                st["distinct"].add((json.dumps(c, sort_keys=True), kind))
+                st["distinct"].add((json.dumps(c, sort_keys=True), kind, hetero))
             if mm and len(st["viol"]) < 400:
-                genrun.add_viol(st["viol"], ({"kind": "directive-mismatch", "request": kind, "first": mm[0][:120]},
+                genrun.add_viol(st["viol"], ({"kind": "directive-mismatch", "request": kind, "hookless_directives_interleaved": hetero, "first": mm[0][:120]},
                                              {"cfg": c, "sdl": w.sdl, "request": w.requests[kind][:2], "mismatches": mm, "log": w.log}))
         st["n"] += 2
         resp, q = w.run_merged()
@@ -185,8 +199,8 @@ def job(j):
             if got != want:
                 mm.append("merged field nodes: data %r expected %r" % (got, want))
         if mm and len(st["viol"]) < 400:
-            genrun.add_viol(st["viol"], ({"kind": "directive-mismatch", "request": "merged", "first": mm[0][:120]}, {"cfg": c, "sdl": w.sdl, "request": q, "mismatches": mm}))
-        if len(st["samples"]) < 1 and all(v == 2 for v in c.values()):
+            genrun.add_viol(st["viol"], ({"kind": "directive-mismatch", "request": "merged", "hookless_directives_interleaved": hetero, "first": mm[0][:120]}, {"cfg": c, "sdl": w.sdl, "request": q, "mismatches": mm}))
+        if len(st["samples"]) < 1 and all(v == 2 for v in c.values()) and hetero:
             st["samples"].append({"cfg": c, "requests": {k: v[0] for k, v in w.requests.items()}, "expected": {k: {"arg": e["arg"], "data": e["data"]} for k, e in rec["expect"].items()}})
 
     res = tlc.run("MC_dirs.tla", cfg, on_line=on_line, workers=1, timeout=1500)
@@ -200,7 +214,8 @@ def main(argv):
                 "definition, query field, object type - with at most 2 (thorough: 3) instances overall plus the all-2 configuration) x 8 request kinds; "
                 "distinct_nontrivial = distinct (configuration with >= 2 instances, request kind)")
     rep.assumptions = ["the relative order of enum-value and enum-type hooks is not compared (only that each runs once): the property text leaves it open (DESIGN 7.2 D2)",
-                       "hooks of interface / union types and on_introspection / on_schema_execution hooks are not generated"]
+                       "hooks of interface / union types and on_introspection / on_schema_execution hooks are not generated",
+                       "every configuration is cooked twice: tagging directives alone, and interleaved with a hook-less directive carrying other argument values (+ @include / @skip on the query side)"]
     cfgs = ["MC_dirs_3.cfg"] if common.tier() == "thorough" else ["MC_dirs_2.cfg"]
     results = genrun.run_jobs("checks.c13", "job", [{"cfg": c} for c in cfgs])
     bad = genrun.merge(rep, results)
